@@ -60,8 +60,8 @@ def pool_config(seed: int, epoch: int, n: int = 16) -> tuple[list[int], list[dic
 def plan(tier: str, seed: int) -> dict:
     hs, envs = pool_config(seed, 0)
     if tier == "quick":
-        return {"budget_s": 75, "min_runs": 40, "minimise_s": 60, "hashseeds": hs, "per_worker_env": envs, "batch": 24, "hooks_every": 12}
-    return {"budget_s": 900, "min_runs": 400, "minimise_s": 120, "hashseeds": hs, "per_worker_env": envs, "batch": 32, "hooks_every": 10, "epoch_docs": 400}
+        return {"budget_s": 75, "min_runs": 10, "minimise_s": 60, "hashseeds": hs, "per_worker_env": envs, "batch": 24, "hooks_every": 12}
+    return {"budget_s": 900, "min_runs": 100, "minimise_s": 120, "hashseeds": hs, "per_worker_env": envs, "batch": 32, "hooks_every": 10, "epoch_docs": 400}
 
 
 # ---------------------------------------------------------------------- workload
